@@ -940,7 +940,15 @@ func (ex *Executor) doCall(st *State, f *Frame, d deferred, dest ssa.Value, adva
 	}
 	if intr, ok := ex.findIntrinsic(fn); ok {
 		ex.Stats.Intrinsics[name]++
+		// sync primitives are atomic by contract: their internal state is not part of the access log
+		saveLog := st.LogOn
+		if strings.HasPrefix(name, "(*sync.") {
+			st.LogOn = false
+		}
 		res, c := intr(ex, st, &CallCtx{Frame: f, Dest: dest, Fn: fn, Advance: advance}, d.Args)
+		if strings.HasPrefix(name, "(*sync.") {
+			st.LogOn = saveLog
+		}
 		switch c {
 		case cNext:
 			if dest != nil {
